@@ -234,6 +234,8 @@ pub struct SrcStats {
     pub parked: RefCell<Option<Waker>>,
     /// set by the driver when it releases the parked waker: the next poll delivers one item
     pub gate_open: Cell<bool>,
+    /// polls that arrived after the source had already answered `Ready(None)`
+    pub polls_after_end: Cell<usize>,
 }
 
 /// Yields the scripted chunks; with `pending` every item (and the end) is held back (Pending, waker
@@ -257,6 +259,13 @@ impl Stream for Source {
     fn poll_next(self: Pin<&mut Self>, cx: &mut Context<'_>) -> Poll<Option<Self::Item>> {
         let this = self.get_mut();
         this.stats.polls.set(this.stats.polls.get() + 1);
+        if this.stats.eof_seen.get() {
+            // A finished stream must not be polled again ("may panic, block forever, or cause
+            // other kinds of problems"): this one blocks forever, without registering a waker,
+            // so a consumer that does poll again shows up as a stream that never terminates.
+            this.stats.polls_after_end.set(this.stats.polls_after_end.get() + 1);
+            return Poll::Pending;
+        }
         if this.pending {
             // stays Pending (however often it is polled) until the driver opens the gate; one
             // release delivers exactly one item
